@@ -72,13 +72,12 @@ func (p *ClonePool) Mark(v Value, flags MarkFlags) {
 	p.mx.Lock()
 	defer p.mx.Unlock()
 	c, ok := p.cloneRegister[k]
-	if flags == 0 {
-		if ok {
-			setFinalizer(v, nil)
-			delete(p.cloneRegister, k)
-		}
+	if flags == 0 && !ok {
 		return
 	}
+	// Note: with flags == 0 nothing is owed to v anymore, but the pool keeps
+	// tracking it (it still owns v's go finalizer, and v still belongs to this
+	// pool's context if it is marked again later).
 	if !ok {
 		// v may still carry the go finalizer of a pool that has been
 		// discarded (its context ended while v was still reachable).  That
